@@ -24,6 +24,9 @@ pub const RX_CAP: usize = 12 + 64 + 32;
 pub const TX_CAP: usize = 128;
 pub const FD_BASE: RawFd = 100;
 pub const FD_N: usize = 8;
+/// descriptor numbers of a "big batch" (more descriptors than the table tracks individually; counted only)
+pub const FD_BIG_BASE: RawFd = 1000;
+pub const FD_BIG_MAX: usize = 80;
 
 
 
@@ -49,6 +52,9 @@ pub struct Ghost {
     pub rx_calls: usize,
     pub blocked: bool,
     pub fds_discarded: usize, // descriptors the kernel dropped (no room / no control buffer)
+    pub rx_big: usize,        // > 0: the peer attached this many descriptors (counted, not tracked one by one)
+    pub big_open: usize,      // big-batch descriptors installed in this process
+    pub big_closed: usize,    // ... and closed again
     pub tx_a: [u8; 64], // bytes 0..64 of everything sent
     pub tx_b: [u8; 64], // bytes 64..128
     pub tx_len: usize,  // total bytes accepted (may exceed TX_CAP; excess not stored)
@@ -89,6 +95,9 @@ pub static mut G: Ghost = Ghost {
     rx_calls: 0,
     blocked: false,
     fds_discarded: 0,
+    rx_big: 0,
+    big_open: 0,
+    big_closed: 0,
     tx_a: [0; 64],
     tx_b: [0; 64],
     tx_len: 0,
@@ -285,6 +294,22 @@ pub unsafe fn ghost_recvmsg(_fd: RawFd, iovecs: &mut [iovec], in_fds: &mut [RawF
     G.rx_pos += done;
     // the descriptors ride on the first byte of the G.rx_fd_call-th receive (a concrete call index, so
     // that CBMC folds this branch; G.rx_nfds itself may be symbolic, at most FD_N)
+    if G.rx_big > 0 && G.rx_calls == G.rx_fd_call {
+        // a batch of rx_big descriptors: with fewer slots than descriptors the kernel truncates the control
+        // message (MSG_CTRUNC), vmm-sys-util closes what arrived and reports ENOBUFS; otherwise every
+        // descriptor is installed in this process and now belongs to the caller
+        if in_fds.len() < G.rx_big {
+            G.fds_discarded += G.rx_big;
+            return Err(errno::Error::new(libc::ENOBUFS));
+        }
+        let mut i = 0;
+        while i < G.rx_big {
+            in_fds[i] = FD_BIG_BASE + i as RawFd;
+            i += 1;
+        }
+        G.big_open = G.rx_big;
+        return Ok((done, G.rx_big));
+    }
     if G.rx_calls == G.rx_fd_call {
         if in_fds.len() < FD_N {
             // receive buffer without (enough) control space: MSG_CTRUNC -> vmm-sys-util closes
@@ -384,6 +409,9 @@ pub unsafe fn note_recv() {
 /// stub for libc::close
 pub unsafe extern "C" fn ghost_close(fd: c_int) -> c_int {
     G.close_calls += 1;
+    if fd >= FD_BIG_BASE && fd < FD_BIG_BASE + FD_BIG_MAX as c_int {
+        G.big_closed += 1;
+    }
     if fd >= G.lent_lo && fd < G.lent_hi {
         G.lent_closed = true;
     }
